@@ -194,6 +194,12 @@ def compare_step(w, rec, out, val, before):
         stamp = e.time.to_pydatetime() if hasattr(e.time, "to_pydatetime") else e.time
         if stamp != T(w.base, rec["stamp"]):
             fails.append(("stamp", "entry stamped %s, latest event processed before the execution %s" % (stamp, T(w.base, rec["stamp"])), ""))
+        # the frame accessors are read DURING the episode too (monitoring, rendering): after every executed decision they
+        # have one row per entry and the last row is this entry
+        of, dfm = impl.classify(lambda: tr.net_liquidation_value())
+        if of != "ok" or len(dfm) != n_entries or not close(float(dfm.iloc[-1, 0]), frac(rec["pre"])):
+            fails.append(("frames", "mid-episode TrackRecord.net_liquidation_value(): %r rows / last %r for %d entries, last pre-trade NLV %s" % (
+                len(dfm) if of == "ok" else dfm, float(dfm.iloc[-1, 0]) if of == "ok" and len(dfm) else None, n_entries, frac(rec["pre"])), ""))
         if not close(e.context_pre.nlv, frac(rec["pre"])) or not close(e.context_post.nlv, frac(rec["post"])):
             fails.append(("track_nlv", "entry reports pre/post NLV %r / %r, independent ledger %s / %s" % (
                 e.context_pre.nlv, e.context_post.nlv, frac(rec["pre"]), frac(rec["post"])), ""))
@@ -326,6 +332,19 @@ def end_of_episode(w, hist):
             e_i = tr[i]
             if tr[e_i.time] is not e_i or (i and not tr[i - 1].time < e_i.time):
                 fails.append(("frames", "TrackRecord[%d] and TrackRecord[its stamp] are different entries, or stamps not increasing" % i, ""))
+                break
+        # a copy of the record (deepcopy, pickle round trip as in TrackRecord.save / load) reports the same costs and values
+        import pickle
+        for how, mk in (("deepcopy", lambda: copy.deepcopy(tr)), ("pickle", lambda: pickle.loads(pickle.dumps(tr)))):
+            oc, tr2 = impl.classify(mk)
+            if oc != "ok":
+                continue                      # not every harness object pickles; nothing is claimed then
+            oc2, tc2 = impl.classify(lambda: tr2.transaction_costs(cumulative=False))
+            if o8 == "ok" and (oc2 != "ok" or len(tc2) != len(tcr) or any(
+                    not close(float(tc2[c].iloc[i]), float(tcr[c].iloc[i])) for c in ("Broker fees", "Spread", "Profit on idle Cash")
+                    for i in range(len(tcr)))):
+                fails.append(("frames", "a %s copy of the track record reports other costs than the record itself: %r vs %r" % (
+                    how, tc2.values.tolist() if oc2 == "ok" else tc2, tcr.values.tolist()), ""))
                 break
         lead = 0
         for i in range(len(steps)):
